@@ -2,6 +2,7 @@ import GoImap.Model.Framing
 import GoImap.Spec.Framing
 import GoImap.Lemmas.FramingReply
 import GoImap.Lemmas.FramingBridge
+import GoImap.Lemmas.FramingLine
 /-
   C04 — server command framing: literal payloads are never parsed as commands.
   Statements about Model/Framing.lean (the mirror of the repaired server) for every configuration,
@@ -30,12 +31,33 @@ import GoImap.Lemmas.FramingBridge
     * legacy_*_counterexample    the behaviour before each repair, on the replays of the findings ledger
                                  (F06 payload of a discarded / refused literal executed, F50 refused
                                  synchronising literal never answered, F51 APPEND never answered)
-  NOT proved (validated on every run by the oracle clauses 1–4 of Spec/Framing.lean on the real
-  server's transcripts, and by the model/implementation tie): the end-to-end simulation
-      tags (serve cfg inp) = tags (frame go inp)   and   roles (serve cfg inp) ⊑ roles (frame go inp)
-  for all streams of the oracle's domain. The lemmas above are its per-step content (where a line
-  ends, when a literal starts, what happens to an unread one); composing them over every handler
-  is not done. `whole_lines` (clause 4) is about the encoder, which is outside this model.
+    * tags_agree_partial / no_payload_as_command_partial
+                                 the end-to-end simulation against `frameLines` (the per-command function of
+                                 `frame`) for ONE class of commands, at full strength inside it: a command the
+                                 server does not know (any name outside its table, any line tail: junk, literal
+                                 headers of either kind, quoted text), on a line of printable US-ASCII, with no
+                                 continuation request pending at the end of the line. The server writes exactly
+                                 one tagged reply and its tag is `frame`'s tag; every octet it consumes as command
+                                 text has role `text` in `frame` (server roles ⊑ spec roles); unless the line
+                                 ends in a non-synchronising literal header both end the command at the same
+                                 octet (same unread input, same offset); no "+" is written.
+  The full statements, NOT proved:
+      tags_agree            : for every cfg and every inp in the strict domain,
+                              tags (serve cfg inp) is a prefix of tags (frame go inp), equal when the server
+                              did not close, with go p := cont p ∈ serve cfg inp
+      no_payload_as_command : rolesOf cfg inp is a prefix of (frame go inp).flatMap (·.roles)
+  What is missing for them, precisely: (1) the analogue of `unknown_command_line` for the handlers that
+  read arguments — the primitives of Lemmas/FramingLine.lean (`OnLine`: look, accept, func, expectAtom, SP,
+  the command header) already stay on the line, `crlfP_at_eol` / `crlfP_mid` / `discardLine_line` settle the
+  line end, `literal_header_agrees` the literal; what is not done is carrying the invariant through every
+  handler (it is not closed under blind composition: a handler must not read after its ExpectCRLF, and
+  a plain line end must not follow a literal header unnoticed — both true of every handler, neither
+  proved), through an accepted literal (the payload, then the next line) and through the raw lines of
+  AUTHENTICATE / IDLE; (2) that a continuation request identifies its line end (offsets of "+" strictly
+  increase), needed to read `go` off the events; (3) the induction over the commands of a stream
+  (`frameAll`). All of it is validated on every run by the oracle clauses 1–4 on the real server's
+  transcripts and by the model/implementation tie. `whole_lines` (clause 4) is about the encoder,
+  which is outside this model.
 -/
 namespace GoImap.C04
 open GoImap.Framing
@@ -126,6 +148,42 @@ theorem logout_stops (cfg : Cfg) (fuel : Nat) (s : S) (h : s.st = .logout) :
 theorem open_literal_blocks_text (s : S) (h : s.lit.isSome = true) :
     s.look.1 = none ∧ s.look.2.inp = s.inp ∧ s.look.2.pos = s.pos :=
   Framing.open_literal_blocks_text s h
+
+/-- tags_agree for a command the server does not know (see the header for the full statement):
+    on the line `l` CRLF of printable US-ASCII, with no "+" seen at its end, the server writes exactly
+    one tagged reply (no continuation request), and its tag is the tag `frameLines` assigns. -/
+theorem tags_agree_partial (cfg : Cfg) (hfix : cfg.fx.append = true) (s0 : S) (l rest : List Nat)
+    (hi : s0.inp = l ++ 13 :: 10 :: rest) (hp : ∀ b ∈ l, 32 ≤ b ∧ b ≤ 126)
+    (tag name : List Nat) (s2 : S) (hh : cmdHeader s0.reset = (some (tag, name), s2))
+    (hu : handlerOf cfg name = .unknown)
+    (go : Nat → Bool) (hgo : go (s0.pos + l.length + 2) = false) (fuel : Nat) (f0 : FramingSpec.Frame) :
+    ∃ s1 new, readCommand cfg s0 = (true, s1) ∧ s1.evs = new ++ s0.evs ∧
+      new.filter isTagged = [Event.tagged tag .bad] ∧ (∀ p, Event.cont p ∉ new) ∧
+      (FramingSpec.frameLines go (fuel + 1) true s0.pos s0.inp f0).1.tag = some tag := by
+  obtain ⟨s1, new, h1, h2, h3, h4, h5, _⟩ :=
+    unknown_command_frame cfg hfix s0 l rest hi hp tag name s2 hh hu go hgo fuel f0
+  exact ⟨s1, new, h1, h2, h3, h4, h5⟩
+
+/-- no_payload_as_command for a command the server does not know: what the server consumed — the
+    whole line and its CRLF, as command text — is command text for `frameLines` as well (server
+    roles ⊑ spec roles); and unless the line ends in a non-synchronising literal header (then the
+    server says BYE, `unread_nonsync_closes`) both stop at the same octet. -/
+theorem no_payload_as_command_partial (cfg : Cfg) (hfix : cfg.fx.append = true) (s0 : S) (l rest : List Nat)
+    (hi : s0.inp = l ++ 13 :: 10 :: rest) (hp : ∀ b ∈ l, 32 ≤ b ∧ b ≤ 126)
+    (tag name : List Nat) (s2 : S) (hh : cmdHeader s0.reset = (some (tag, name), s2))
+    (hu : handlerOf cfg name = .unknown)
+    (go : Nat → Bool) (hgo : go (s0.pos + l.length + 2) = false) (fuel : Nat) (f0 : FramingSpec.Frame) :
+    let R := FramingSpec.frameLines go (fuel + 1) true s0.pos s0.inp f0
+    ∃ s1, readCommand cfg s0 = (true, s1) ∧
+      s1.roles = List.replicate (l.length + 2) Role.text ++ s0.roles ∧
+      (f0.roles ++ List.replicate (l.length + 2) FramingSpec.Role.text <+: R.1.roles) ∧
+      ((FramingSpec.litHeader l = none ∨ ∃ n, FramingSpec.litHeader l = some (n, false)) →
+        s1.inp = R.2 ∧ R.1.roles = f0.roles ++ List.replicate (l.length + 2) FramingSpec.Role.text ∧
+          s1.pos = s0.pos + (l.length + 2)) := by
+  intro R
+  obtain ⟨s1, new, h1, _, _, _, _, h6, h7, h8⟩ :=
+    unknown_command_frame cfg hfix s0 l rest hi hp tag name s2 hh hu go hgo fuel f0
+  exact ⟨s1, h1, h6, h7, h8⟩
 
 /-! ### the behaviour before the repairs (Legacy), on the replay inputs -/
 
